@@ -40,17 +40,21 @@ func getConversion(in cty.Type, out cty.Type, unsafe bool) conversion {
 			// attributes from the type. Unknown and null pass through values
 			// must do the same to ensure that homogeneous collections have a
 			// single element type.
-			out = out.WithoutOptionalAttributesDeep()
+			//
+			// dynamicReplace needs to see the annotations (a placeholder in an
+			// optional attribute cannot be resolved from a map's element
+			// type), so they are removed from its result.
+			out := dynamicReplace(in.Type(), out).WithoutOptionalAttributesDeep()
 
 			if !isKnown {
-				return prepareUnknownResult(in.Range(), dynamicReplace(in.Type(), out)), nil
+				return prepareUnknownResult(in.Range(), out), nil
 			}
 
 			if isNull {
 				// We'll pass through nulls, albeit type converted, and let
 				// the caller deal with whatever handling they want to do in
 				// case null values are considered valid in some applications.
-				return cty.NullVal(dynamicReplace(in.Type(), out)), nil
+				return cty.NullVal(out), nil
 			}
 		}
 
